@@ -790,6 +790,81 @@ theorem hashes_reload_counterexample :
     hashes verB [[1, 2], [5, 6]] = [[1, 2, 9], [5, 6, 8]] ∧
     hashesLoads [verB, verB] [verA, verA] [[1, 2], [5, 6]] = some [[1, 2, 3], [1, 2, 4]] := by decide
 
+/-- **Why the versions of the snapshot campaign differ under every requested prefix.**  Let `B`
+have fewer names than `A` under each requested prefix, and let every look-up of both loops of a
+`Hashes` call find either of them installed (`cs` for the counting loop, `es` for the encoding
+loop).  If the call gives the answer of `A`, every single look-up read `A`: there is no moment of
+the call at which a swap goes unnoticed. -/
+theorem hashes_widest_needs_every_load (A B : Store) (prefs : List Bytes) (cs es : List Bool)
+    (hc : cs.length = prefs.length) (he : es.length = prefs.length)
+    (hlt : ∀ p ∈ prefs, (B p).length < (A p).length)
+    (h : hashesLoads (pickMaps A B cs) (pickMaps A B es) prefs = some (hashes A prefs)) :
+    (∀ b ∈ cs, b = true) ∧ (∀ b ∈ es, b = true) := by
+  by_cases hne : prefs = []
+  · subst hne
+    have h1 : cs = [] := List.length_eq_zero_iff.mp hc
+    have h2 : es = [] := List.length_eq_zero_iff.mp he
+    subst h1; subst h2
+    simp
+  · obtain ⟨hlen, hle⟩ := hashesLoads_length _ _ _ _ hne h
+    rw [← countLoop_replicate] at hlen
+    obtain ⟨_, _, c3, _⟩ := countLoop_pick_bounds A B prefs hlt cs hc
+    obtain ⟨e1, _, e3, _⟩ := countLoop_pick_bounds A B prefs hlt es he
+    exact ⟨c3 hlen.symm, e3 (by omega)⟩
+
+/-- The other end: the answer of the narrow version `B` can only come out when the counting loop
+read `B` at every look-up. -/
+theorem hashes_narrowest_needs_every_count (A B : Store) (prefs : List Bytes) (cs es : List Bool)
+    (hc : cs.length = prefs.length)
+    (hlt : ∀ p ∈ prefs, (B p).length < (A p).length)
+    (h : hashesLoads (pickMaps A B cs) (pickMaps A B es) prefs = some (hashes B prefs)) :
+    ∀ b ∈ cs, b = false := by
+  by_cases hne : prefs = []
+  · subst hne
+    have h1 : cs = [] := List.length_eq_zero_iff.mp hc
+    subst h1
+    simp
+  · obtain ⟨hlen, _⟩ := hashesLoads_length _ _ _ _ hne h
+    rw [← countLoop_replicate] at hlen
+    obtain ⟨_, _, _, c4⟩ := countLoop_pick_bounds A B prefs hlt cs hc
+    exact c4 hlen.symm
+
+/-- A counting loop that meets both versions is always seen: the call panics, or its answer has
+the number of digests of neither version (so it is the answer of neither). -/
+theorem hashes_mixed_count_detected (A B : Store) (prefs : List Bytes) (cs es : List Bool)
+    (hc : cs.length = prefs.length)
+    (hlt : ∀ p ∈ prefs, (B p).length < (A p).length)
+    (hA : ∃ b ∈ cs, b = true) (hB : ∃ b ∈ cs, b = false) (ans : List Bytes)
+    (h : hashesLoads (pickMaps A B cs) (pickMaps A B es) prefs = some ans) :
+    ans.length ≠ (hashes A prefs).length ∧ ans.length ≠ (hashes B prefs).length := by
+  have hne : prefs ≠ [] := by
+    intro hp; subst hp
+    have h1 : cs = [] := List.length_eq_zero_iff.mp hc
+    subst h1
+    obtain ⟨b, hb, _⟩ := hA
+    simp at hb
+  obtain ⟨hlen, _⟩ := hashesLoads_length _ _ _ _ hne h
+  obtain ⟨_, _, c3, c4⟩ := countLoop_pick_bounds A B prefs hlt cs hc
+  rw [← countLoop_replicate, ← countLoop_replicate, hlen]
+  constructor
+  · intro heq
+    obtain ⟨b, hb, hf⟩ := hB
+    have := c3 heq b hb
+    simp [hf] at this
+  · intro heq
+    obtain ⟨b, hb, ht⟩ := hA
+    have := c4 heq b hb
+    simp [ht] at this
+
+/-- Non-vacuity of the hypothesis of the three theorems above, and the runs of
+`hashes_reload_counterexample` as instances: under the prefix `[1, 2]` `verB` has one name and `verA`
+two; a counting loop on `verA` with an encoding loop that meets `verB` panics, the reverse gives
+one digest of `verA`, which is the answer of neither version. -/
+example : (∀ p ∈ [[1, 2]], (verB p).length < (verA p).length) ∧
+    hashesLoads (pickMaps verA verB [true]) (pickMaps verA verB [false]) [[1, 2]] = none ∧
+    hashesLoads (pickMaps verA verB [false]) (pickMaps verA verB [true]) [[1, 2]] = some [[1, 2, 3]] ∧
+    hashes verA [[1, 2]] = [[1, 2, 3], [1, 2, 4]] ∧ hashes verB [[1, 2]] = [[1, 2, 9]] := by decide
+
 /-! ### The two defects of the unchanged tree (fixed by a7f0f3a and 693a9d2) -/
 
 def wfPiece (p : Bytes) : Bool := (p.length == 4 || p.length == 8) && p.all isHex
@@ -1001,6 +1076,9 @@ example : questionRespond (fun _ => Store.empty) [([46, 115], 0)] [115, 46] 16 =
 #print axioms txt_question_spec
 #print axioms non_query_passed
 #print axioms hashesLoads_snapshot
+#print axioms hashes_widest_needs_every_load
+#print axioms hashes_narrowest_needs_every_count
+#print axioms hashes_mixed_count_detected
 #print axioms hashes_during_resets_spec
 #print axioms matches_during_resets_spec
 #print axioms hashes_reload_counterexample
